@@ -949,7 +949,7 @@ func resolvePlannedField(eCtx *executionContext, parentType *Object, source inte
 		// static map immutable across requests.
 		args = make(map[string]interface{}, len(fp.args.static))
 		for k, v := range fp.args.static {
-			args[k] = v
+			args[k] = copyArgValue(v)
 		}
 	default:
 		args = map[string]interface{}{}
@@ -1001,6 +1001,27 @@ func resolvePlannedField(eCtx *executionContext, parentType *Object, source inte
 
 	completed := completePlannedValueCatchingError(eCtx, returnType, fp, info, path, result)
 	return completed, true
+}
+
+// copyArgValue copies the input objects and lists inside a pre-coerced
+// argument value, so that nothing a resolver does to its arguments reaches the
+// values kept in the plan (and with them later requests).
+func copyArgValue(v interface{}) interface{} {
+	switch v := v.(type) {
+	case map[string]interface{}:
+		m := make(map[string]interface{}, len(v))
+		for k, e := range v {
+			m[k] = copyArgValue(e)
+		}
+		return m
+	case []interface{}:
+		l := make([]interface{}, len(v))
+		for i, e := range v {
+			l[i] = copyArgValue(e)
+		}
+		return l
+	}
+	return v
 }
 
 func completePlannedValueCatchingError(eCtx *executionContext, returnType Type, fp *fieldPlan, info ResolveInfo, path *ResponsePath, result interface{}) (completed interface{}) {
